@@ -101,20 +101,40 @@ def scenario(ch, cfg):
     fc, kvs = _fc, _kvs
     hist = gen_history(ch)
     vals = _values(hist)
-    w = World(ch, max_steps=20000, policy=2)
+    w = World(ch, max_steps=20000, policy=ch.weighted([1, 1, 2], "policy"))
     fs = SimFS(w, ROOT)
     install_fs(fc, fs)
-    store = kvs.KeyValueStorage(ROOT)
-    sim_cache(store.cache, w)
+    cur = {"store": kvs.KeyValueStorage(ROOT)}
+    sim_cache(cur["store"].cache, w)
     stats = w.stats
+    # between two sets the application may drop its store object and open a new one on the same directory
+    # (nothing is cached then: the next get of an existing key is a real load)
+    reopen_before = {i for i in range(1, len(hist)) if ch.draw(4, "reopen") == 0}
 
     refused = set()
 
     def writer():
         for i, ((k, lit), v) in enumerate(zip(hist, vals)):
+            if i in reopen_before:
+                st = kvs.KeyValueStorage(ROOT)
+                sim_cache(st.cache, w)
+                cur["store"] = st
+                stats["probe_reopen_between_sets"] += 1
+                if ch.draw(2, "get_after_reopen") and any(kk == k for kk, _ in hist[:i]):
+                    # somebody reads the key from the fresh store while it is being set again: its load is in flight
+                    def fresh_get(st=st, k=k):
+                        try:
+                            st.get(k)
+                        except SystemExit:
+                            raise
+                        except BaseException:   # noqa
+                            pass
+                        stats["probe_get_racing_with_set_after_reopen"] += 1
+                    w.spawn(f"reader{i}", fresh_get)
+                w.yield_point("reopened")
             fs.mark("inv", i)
             try:
-                store.set(k, v)
+                cur["store"].set(k, v)
             except MemoryError:
                 # a value larger than the cache limit may be refused (specified, see C16): then nothing was promised
                 refused.add(i)
@@ -129,7 +149,7 @@ def scenario(ch, cfg):
     def reader():
         for k in reader_keys:
             try:
-                store.get(k)
+                cur["store"].get(k)
             except SystemExit:
                 raise
             except BaseException:   # noqa - a get racing with the first set of its key may legitimately find nothing
